@@ -95,6 +95,8 @@ func NewStd(o *kernel.Outcome, tape *kernel.Tape, opt StdOptions) (*World, error
 	w := &World{O: o, Tape: tape, Cfg: cfg, Store: NewStore(), Issuer: "https://op.sim", ClientKeys: map[string]jose.JSONWebKey{},
 		Ledger: &Ledger{Codes: map[string]string{}, Access: map[string]*TokenRecord{}, Refresh: map[string]*TokenRecord{}, IDs: map[string]*TokenRecord{}}}
 	w.Start = time.Now()
+	yields := tape.Sub("store-yields")
+	w.Store.Yields = func() int { return 1 + yields.Int(3) }
 	w.Router = opt.Router
 	if w.Router == "" {
 		w.Router = cfg.Pick("A", "B")
